@@ -41,6 +41,35 @@ pub fn dispatch(ctx: &mut Ctx, op: &str, call: &Value) -> Option<Value> {
             ctx.its.insert(id, it);
             out::unit()
         }
+        // sections of ALL ELF-sections tags of the region compared with one another through the value type's own
+        // PartialEq / Ord / Hash (both orders): how many pairs compare equal, and whether == agrees with cmp and hash
+        "elf_cmp" => {
+            use std::hash::{Hash, Hasher};
+            let bi = match ctx.bi_ref() {
+                None => return Some(out::skipped()),
+                Some(b) => b,
+            };
+            let mut secs: Vec<multiboot2::ElfSection> = Vec::new();
+            for t in bi.tags() {
+                if u32::from(t.header().typ) == 9 {
+                    secs.extend(t.cast::<multiboot2::ElfSectionsTag>().sections());
+                }
+            }
+            let h = |s: &multiboot2::ElfSection| {
+                let mut st = std::collections::hash_map::DefaultHasher::new();
+                s.hash(&mut st);
+                st.finish()
+            };
+            let (mut eq, mut consistent) = (0u64, true);
+            for a in &secs {
+                for b in &secs {
+                    let e = a == b;
+                    eq += e as u64;
+                    consistent &= e == (a.cmp(b) == std::cmp::Ordering::Equal) && (!e || h(a) == h(b));
+                }
+            }
+            json!({"k": "cmp", "n": out::num(secs.len()), "eq": out::num(eq as usize), "consistent": if consistent { 1 } else { 0 }})
+        }
         "next" => next(ctx, call),
         "len" => {
             let id = out::arg_u64(call, "it");
